@@ -1,5 +1,7 @@
 """Program generation for the store-level checks (C12, C18, C07) from MC_Store.tla."""
 import json
+import random
+import cmdlib
 import vlib
 
 TYPES = ["string", "hash", "list", "set", "zset"]
@@ -21,6 +23,16 @@ def programs(ctx, handler, maxlen, twokeys, nsim, simlen, types=TYPES):
         if nsim > 0:
             r = ctx.tlc("MC_Store", cfg(ty, handler, 0, True, True, simlen), name="MC_Store_sim_" + ty, workers=1, timeout=2400,
                         simulate="num=%d" % nsim, depth=simlen + 1)
-            out += [json.loads(s) for s in r.scenarios]
-            counts[ty + "_random"] = len(r.scenarios)
+            sims = [json.loads(s) for s in r.scenarios]
+            # every other random program also switches databases (SELECT 0/1/2 at random positions): each database is its
+            # own keyspace in the model (TraceConn keeps one RedisModel keyspace per database id)
+            rng = random.Random(ctx.seed * 7919 + len(out))
+            for i, sc in enumerate(sims):
+                if i % 2:
+                    reqs = sc["steps"][0]["reqs"]
+                    for _ in range(rng.randint(2, 5)):
+                        at = rng.randrange(len(reqs) + 1)
+                        reqs.insert(at, {"cls": "prog", "name": "SELECT", "args": [dict(cmdlib.tok("int", n=rng.randrange(3)))]})
+            out += sims
+            counts[ty + "_random"] = len(sims)
     return out, counts
